@@ -651,7 +651,7 @@ func hasContainer(u *TypeJ) bool {
 
 func generate(r *core.RNG, tier string) []json.RawMessage {
 	g := &gen{r: r}
-	out := append(corner(), ladder()...)
+	out := append(append(corner(), ladder()...), floatTies()...)
 	n := 260
 	if tier == "thorough" {
 		n = 6000
@@ -663,6 +663,10 @@ func generate(r *core.RNG, tier string) []json.RawMessage {
 		}
 		if g.r.Chance(15) {
 			out = append(out, g.deep(g.r.Intn(ladderDepth+1)))
+			continue
+		}
+		if g.r.Chance(7) {
+			out = append(out, g.tie())
 			continue
 		}
 		out = append(out, g.one(1+g.r.Intn(4)))
@@ -743,4 +747,144 @@ func nonzero(t *TypeJ, zeroLeaves bool) ValJ {
 		return ValJ{L: l}
 	}
 	return ValJ{}
+}
+
+// ---- integer map keys that are distinct as integers but equal once converted to float64 ----
+//
+// ValueLit orders a map's entries by the key TEXTS.  Any "numeric" ordering that goes through float64 (strconv.ParseFloat,
+// float64(k)) cannot tell 64-bit integers apart that lie closer together than the float spacing at their magnitude (2 from
+// 2^53, 1024 at 2^62, 2048 near MaxUint64): such keys tie, the sort leaves them in reflect's randomised MapKeys order and
+// the same value renders to different texts.  The family: maps with 2..8 keys from one such cluster (ids 1<<62+0..7, keys
+// next to MaxInt64 / MinInt64 / MaxUint64 / 2^53 / -2^53), key type int64 / uint64 / int / uint / uintptr / named
+// (time.Duration, c10types.Size), alone, mixed with small keys, as struct field, map value, slice element, behind a pointer.
+
+type tieBase struct {
+	uns  bool
+	i    int64
+	u    uint64
+	down bool // offsets are subtracted
+}
+
+var tieBases = []tieBase{
+	{i: 1 << 62}, {i: 1 << 53}, {i: -(1 << 53), down: true}, {i: math.MaxInt64, down: true}, {i: math.MinInt64}, {i: -(1 << 62), down: true},
+	{i: 1<<60 + 12345}, {uns: true, u: 1 << 63}, {uns: true, u: math.MaxUint64, down: true}, {uns: true, u: 1 << 62}, {uns: true, u: 1<<53 + 1},
+}
+
+func tieKeyTypes(uns bool) []TypeJ {
+	if uns {
+		return []TypeJ{sc("uint64"), sc("uint"), sc("uintptr"), nm("c10types.Size")}
+	}
+	return []TypeJ{sc("int64"), sc("int"), nm("time.Duration")}
+}
+
+// tieMap: n keys base, base±1, .. (in the order given by perm) plus `extra` small keys
+func tieMap(b tieBase, n int, extra []int64, elem func(i int) ValJ) ValJ {
+	m := [][2]ValJ{}
+	for i := 0; i < n; i++ {
+		var k ValJ
+		switch {
+		case b.uns && b.down:
+			k = uval(b.u - uint64(i))
+		case b.uns:
+			k = uval(b.u + uint64(i))
+		case b.down:
+			k = ival(b.i - int64(i))
+		default:
+			k = ival(b.i + int64(i))
+		}
+		m = append(m, [2]ValJ{k, elem(i)})
+	}
+	for j, x := range extra {
+		if b.uns {
+			m = append(m, [2]ValJ{uval(uint64(x)), elem(n + j)})
+		} else {
+			m = append(m, [2]ValJ{ival(x), elem(n + j)})
+		}
+	}
+	return ValJ{M: m}
+}
+
+func floatTies() []json.RawMessage {
+	var out []json.RawMessage
+	add := func(note string, t TypeJ, v ValJ, i int) {
+		self, via := selfMain, "value"
+		if i%2 == 1 {
+			self = selfTypes
+		}
+		if i%3 == 2 {
+			via = "sprintf"
+		}
+		out = append(out, mk(t, v, self, via, note))
+	}
+	str := func(i int) ValJ { return sval(fmt.Sprintf("v%d", i)) }
+	n := 0
+	for bi, b := range tieBases {
+		for ki, kt := range tieKeyTypes(b.uns) {
+			for _, cnt := range []int{8, 3} {
+				if cnt == 3 && (bi+ki)%2 == 1 {
+					continue
+				}
+				var extra []int64
+				if (bi+ki)%3 == 0 {
+					extra = []int64{0, 7}
+				}
+				add(fmt.Sprintf("map keys that round to the same float64: %d keys", cnt), mapT(kt, sc("string")), tieMap(b, cnt, extra, str), n)
+				n++
+			}
+		}
+	}
+	// nested: struct field, map value, slice element, behind a pointer, key and value both maps of this kind
+	ids, big := tieBases[0], tieBases[8]
+	mi, mu := mapT(sc("int64"), sc("string")), mapT(sc("uint64"), sc("bool"))
+	bl := func(i int) ValJ { return bval(i%2 == 0) }
+	add("tied keys: map in a struct field", structT(fld("Name", sc("string")), fld("M", mi)), lval(sval("n"), tieMap(ids, 5, nil, str)), 0)
+	add("tied keys: map as map value", mapT(sc("string"), mu), ValJ{M: [][2]ValJ{{sval("a"), tieMap(big, 4, nil, bl)}, {sval("b"), tieMap(big, 3, nil, bl)}}}, 1)
+	add("tied keys: maps in a slice", sliceT(mi), lval(tieMap(ids, 3, nil, str), tieMap(tieBases[3], 6, nil, str)), 2)
+	add("tied keys: pointer to map", structT(fld("P", ptrT(mu))), lval(pval(tieMap(big, 8, nil, bl))), 3)
+	add("tied keys: named keys, struct values", mapT(nm("time.Duration"), nm("c10types.Inner")),
+		tieMap(ids, 4, nil, func(i int) ValJ { t := nm("c10types.Inner"); return nonzero(&t, false) }), 4)
+	add("tied outer keys, tied inner keys", mapT(sc("int64"), mi), tieMap(ids, 3, nil, func(i int) ValJ { return tieMap(tieBases[1], 3, nil, str) }), 5)
+	return out
+}
+
+// tie: a random member of the family
+func (g *gen) tie() json.RawMessage {
+	b := core.Pick(g.r, tieBases)
+	if g.r.Chance(30) { // a random magnitude above 2^56: spacing >= 16
+		if b.uns {
+			b = tieBase{uns: true, u: g.r.Uint64() | 1<<57}
+			b.down = b.u > math.MaxUint64-16
+		} else {
+			x := int64(g.r.Uint64()>>2 | 1<<57)
+			if g.r.Bool() {
+				x = -x
+			}
+			b = tieBase{i: x, down: x > 0 && x > math.MaxInt64-16}
+		}
+	}
+	kt := core.Pick(g.r, tieKeyTypes(b.uns))
+	et := g.typ(g.r.Intn(2), false)
+	var extra []int64
+	if g.r.Chance(30) {
+		extra = []int64{int64(g.r.Intn(100))}
+	}
+	t := mapT(kt, et)
+	v := tieMap(b, 2+g.r.Intn(7), extra, func(int) ValJ { return g.val(&et, 1) })
+	for d := g.r.Intn(3); d > 0; d-- {
+		k := core.Pick(g.r, []string{"slice", "struct", "map", "ptr"})
+		if k == "ptr" && t.K == "ptr" {
+			k = "slice"
+		}
+		t = wrapT(k, t)
+		v = wrapV(&t, v)
+	}
+	self := selfMain
+	if g.r.Chance(40) {
+		self = selfTypes
+	}
+	via := "value"
+	if g.r.Chance(30) {
+		via = "sprintf"
+	}
+	return mk(t, v, self, via, "")
 }
